@@ -104,7 +104,19 @@ func NewCompiler(
 }
 
 // Compile compiles the AST node.
-func (c *Compiler) Compile(node parser.Node) error {
+func (c *Compiler) Compile(node parser.Node) (err error) {
+	defer func() {
+		// emit() reports an operand that does not fit its encoding by
+		// panicking with a *CompilerError
+		if r := recover(); r != nil {
+			ce, ok := r.(*CompilerError)
+			if !ok {
+				panic(r)
+			}
+			err = ce
+		}
+	}()
+
 	if c.trace != nil {
 		if node != nil {
 			defer untracec(tracec(c, fmt.Sprintf("%s (%s)",
@@ -1303,6 +1315,20 @@ func (c *Compiler) emit(
 	filePos := parser.NoPos
 	if node != nil {
 		filePos = node.Pos()
+	}
+
+	// an operand that does not fit its encoded width (e.g. a call with more
+	// than 255 arguments, a function with more than 256 local variables)
+	// would be truncated silently by MakeInstruction
+	for i, o := range operands {
+		if width := parser.OpcodeOperands[opcode][i]; o < 0 ||
+			o>>(8*uint(width)) != 0 {
+			if node == nil {
+				node = &parser.File{InputFile: c.file}
+			}
+			panic(c.errorf(node, "operand out of range: %s %d (limit: %d)",
+				parser.OpcodeNames[opcode], o, 1<<(8*uint(width))-1))
+		}
 	}
 
 	inst := MakeInstruction(opcode, operands...)
